@@ -729,6 +729,10 @@ static int sbdf_read_valuearray_int(FILE* file, sbdf_valuearray** handle)
 		}
 		break;
 	default:
+		if (handle)
+		{
+			sbdf_va_destroy(*handle);
+		}
 		return SBDF_ERROR_UNKNOWN_VALUEARRAY_ENCODING;
 	}
 
@@ -800,12 +804,21 @@ int sbdf_va_write(sbdf_valuearray* handle, FILE* file)
 
 int sbdf_va_read(FILE* file, sbdf_valuearray** handle)
 {
+	int err;
+
 	if (!handle)
 	{
 		return SBDF_ERROR_ARGUMENT_NULL;
 	}
 
-	return sbdf_read_valuearray_int(file, handle);
+	err = sbdf_read_valuearray_int(file, handle);
+	if (err)
+	{
+		/* everything allocated has been released again */
+		*handle = 0;
+	}
+
+	return err;
 }
 
 int sbdf_va_skip(FILE* file)
